@@ -380,6 +380,12 @@ func (s *TermStore) Bin(op Op, a, b *Term) *Term {
 		}
 	}
 	switch op {
+	case OURem:
+		if b.IsConst() && b.ConstBig().Sign() > 0 {
+			if _, hi := s.Interval(a); hi.Cmp(b.ConstBig()) < 0 {
+				return a
+			}
+		}
 	case OAdd, OOr, OXor:
 		if a.IsConst() && a.ConstBig().Sign() == 0 {
 			return b
@@ -866,6 +872,10 @@ func (s *TermStore) Interval(t *Term) (*big.Int, *big.Int) {
 		}
 		if h, ok := s.VarHi[t]; ok {
 			hi = h
+		}
+	case OInt2BV:
+		if in := t.A[0]; in.Op == OIMod && in.A[1].IsConst() && in.A[1].Big.Sign() > 0 && in.A[1].Big.Cmp(new(big.Int).Add(full, bigOne)) <= 0 {
+			hi = new(big.Int).Sub(in.A[1].Big, bigOne)
 		}
 	case OAdd:
 		xl, xh := s.Interval(t.A[0])
